@@ -28,6 +28,7 @@ def run(ctx):
     r94(ctx, wr)
     ar.fresh_part_rule(ctx, 'R9.5')
     ar.index_normalisation_rule(ctx, 'R9.6')
+    r98(ctx)
     r96(ctx, api)
     r97(ctx, wr)
     from . import callsigs as _cs
@@ -238,3 +239,22 @@ def r97(ctx, wr):
     ctx.ob('R9.7', 'writer.overwrite:row-groups-to-remove-matched-by-partition-values',
            len(rm) == 1 and 'partitions(rg, True) in partition_values_in_new' in norm(rm[0].value) and 'pf.row_groups' in norm(rm[0].value),
            norm(rm[0])[:120] if rm else '', wr.loc(f))
+
+
+MUTATORS = ('ParquetFile._sort_part_names', 'ParquetFile.remove_row_groups', 'ParquetFile.write_row_groups')
+
+
+def r98(ctx, rule='R9.8'):
+    """the dataset mutators work on the file metadata itself (`self.fmd.row_groups`), never on the handle's derived
+    `self.row_groups` list, which is only rebuilt by _set_attrs() at the end of a mutation and is stale in between"""
+    api = ctx.repo['api']
+    n = 0
+    for q in MUTATORS:
+        f = api.func(q)
+        for x in walk_no_nested(f):
+            if isinstance(x, ast.Attribute) and x.attr == 'row_groups':
+                n += 1
+                ctx.ob(rule, 'api.%s:works-on-the-file-metadata-not-the-derived-list:%s' % (q.split('.')[-1], norm(x)), norm(x) != 'self.row_groups',
+                       '`%s` in %s: the cached list lags behind fmd.row_groups while row groups are being added, removed or re-ordered' % (norm(x), q),
+                       api.loc(x))
+    ctx.floor(rule, 'row-group list uses in the mutators', n, 8)
